@@ -72,7 +72,7 @@ def prove(hyps, goal, timeout_ms=20000, fallbacks=True):
     return {'unsat': 'proved', 'sat': 'refuted', 'unknown': 'unknown'}[st], model, dt, be
 
 
-def prove_ladder(hyp_groups, goal, timeout_ms=20000):
+def prove_ladder(hyp_groups, goal, timeout_ms=20000, fallbacks=True):
     """Hypothesis portfolio: try increasing subsets of hypotheses (dropping hypotheses is sound for a proof).
     hyp_groups: list of lists; rung k uses groups[0..k].  A refutation only counts on the full set."""
     total = 0.0
@@ -81,7 +81,8 @@ def prove_ladder(hyp_groups, goal, timeout_ms=20000):
     for k, g in enumerate(hyp_groups):
         acc = acc + list(g)
         final = (k == len(hyp_groups) - 1)
-        v, model, dt, be = prove(acc, goal, timeout_ms if final else max(2000, timeout_ms // 4), fallbacks=final)
+        v, model, dt, be = prove(acc, goal, timeout_ms if final else max(1000, timeout_ms // 4),
+                                 fallbacks=final and fallbacks)
         total += dt
         if v == 'proved':
             return v, None, total, be
